@@ -346,6 +346,7 @@ pub fn pipeline_programs(seed: u64, family: &str, n: usize, emit: &mut dyn FnMut
                 let p = vm::gen_program(&mut r, flavour);
                 (vm::gen_cfg(&mut r, flavour), p)
             }
+            8 if r.chance(1, 2) => ("30000000,10,50,250,394,0".to_string(), crate::fam::idiom::storage_free_program(&mut r)),
             8 => {
                 // random bytes
                 let len = 1 + r.below(80);
